@@ -1,4 +1,4 @@
-"""C05 — on-disk caches never change the result: sentences 2 and 3 (CrossHair over environment booleans + closed truncation obligations)."""
+"""C05 — on-disk caches never change the result: step laws over the real key computations and cache classes (CrossHair), closed truncation obligations, closed edit/run histories through the real pipeline."""
 from vlib.runner import Job, Report
 
 H = 'harness.c05_cache'
@@ -10,6 +10,13 @@ def run(rep: Report, tier: str, only=None) -> None:
 		Job('O1.provider', H, 'provider_law', {}, t, 'F', 'CacheProvider.get: caching enabled / cache file present / asked twice (symbolic booleans); environment recorded', ('disabled', 'warm', 'cold')),
 		Job('O1.persistor', H, 'persistor_law', {}, t, 'F', 'SymbolDBPersistor.stored / store / restore: caching enabled / module on disk / file present (symbolic booleans); environment recorded', ('disabled', 'enabled')),
 	]
+	K = 'harness.c05_keys'
+	jobs += [
+		Job('O3.tree_key', K, 'tree_key_law', {}, t, 'S', 'SyntaxParserOfLark.__call__ twice over a store keyed by (cache key, identity): mtimes of the source and of the grammar are symbolic floats in [0, 4e9); str() of a float modelled as injective', ('source-edited', 'grammar-edited', 'unchanged', 'served-from-cache')),
+		Job('O3.proxy_key', K, 'proxy_key_law', {}, t, 'F', 'CacheProvider.get / CachedProxy in two consecutive processes over an in-memory file system: 3 cache keys x 3 source mtimes x 2 grammar mtimes each, with / without format', ('same', 'different')),
+		Job('O3.symbols_key.near', K, 'symbols_key_law', {'far': False}, t, 'F', 'Module.identity over every acyclic import graph of 4 modules (64) x edited module (4): the edited module is the module itself or a direct import', ('dist0', 'dist1')),
+		Job('O3.symbols_key.far', K, 'symbols_key_law', {'far': True}, t, 'F', 'Module.identity over every acyclic import graph of 4 modules (64) x edited module (4): the edited module is imported at distance >= 2; a failing step is demonstrated through the real pipeline before it is reported', ('dist2',)),
+	]
 	if only:
 		jobs = [j for j in jobs if j.obligation in only or j.obligation.split('.')[0] in only]
 	rep.functions = ['CacheProvider.get', 'CachedProxy.get/gen_cache_path/cache_exists/save_cache/find_oldest/load_cache', 'CachedDummy.get', 'SymbolDBPersistor.stored/store/restore/_can_store/_can_restore/_store/_restore/_find_oldest', 'EntryStored.load', 'Serialization.loads']
@@ -18,9 +25,17 @@ def run(rep: Report, tier: str, only=None) -> None:
 		'environment stubs: os / glob / open as seen by cache.py and persistent.py, the source loader and the module are recording stubs returning the symbolic booleans',
 		'"no cache file is read or written" = no open / unlink / makedirs / glob / source load recorded (existence probes through os.path.exists are not counted as reads)',
 	]
-	rep.outside = ['sentence 1: warm == cold over edit histories (needs a file system, md5 identities and repeated pipeline runs)', 'the pickled Lark parser cache']
+	rep.outside = ['md5 collisions (proxy_key_law runs the real md5 on the listed identities only)', 'import graphs of more than 4 modules, cyclic imports', 'histories beyond the listed families', 'the pickled Lark parser cache file content', 'edits within one long-running process (FileLoader memoises mtime / hash per process)']
 	rep.run_jobs(jobs)
 	if not only or 'O2' in only:
 		rep.run_closed('O2.truncated_tree', 'harness.c15_serial', 'truncation_closed', {}, 'every truncation offset of the stored syntax tree (5 shapes): EntryStored.load raises or restores the original (closed)')
 		rep.run_closed('O2.truncated_symbols', H, 'truncated_symbols_closed', {}, 'every truncation offset of a stored symbol table: SymbolDBPersistor.restore raises (closed)')
+	if not only or 'O4' in only:
+		HH = 'harness.c05_histories'
+		base = ['edit', 'back', 'disabled', 'clear', 'subsecond', 'backwards', 'first-disabled']
+		plan = [(shape, [f]) for shape in ('chain3', 'fan3', 'diamond') for f in base] + [('chain3', ['two']), ('chain3', ['two-one-run'])]
+		if tier == 'thorough':
+			plan += [(shape, [f]) for shape in ('fan3', 'diamond', 'chain4') for f in ('two', 'two-one-run')] + [('chain4', [f]) for f in base]
+		rep.run_closed_many([(f'O4.histories.{shape}.{fam[0]}', HH, 'histories_closed', {'shape': shape, 'families': fam},
+			f'module graph {shape}: every history of the family {fam[0]!r} over all choices of the edited module(s) through the real pipeline and the real cache files on a scratch file system; every run compared with the same run on an empty cache directory (closed)') for shape, fam in plan])
 	rep.check_recorded()
